@@ -246,6 +246,14 @@ def features(line, crash=False):
         if len(shape) >= 2 and shape[0] == 0:
             f.append("empty-index-rank2+")
         st = st[1:]
+    if op.startswith("OP2") and len(st) >= 2:
+        sa, sb = st[0][1], st[1][1]
+        k = min(len(sa), len(sb))
+        mx = [max(x, y) for x, y in zip(sa, sb)] + list(sa[k:]) + list(sb[k:])   # shape after padding with the fill
+        if mx != st[0][1] and mx != st[1][1]:
+            f.append("result-shape-differs")   # padded shape equals neither argument's shape
+        if st[0][0] == st[1][0]:
+            f.append("same-type")
     if op in ("OMember", "OIndexIn") and len(st) >= 2 and 0 in st[1][1]:
         f.append("empty-needle")
     if st and any(0 in a[1] for a in st[:2 if op[:3] in ("OP2", "OMa", "OCo", "OJo", "OMe", "OIn", "OFi") else 1]):
@@ -329,7 +337,8 @@ def run(r):
     r.proofs()
 
     n = 1500 if quick else 120000
-    rc, out, err = run_bin("c08", ["tie", n], seed=r.seed, timeout=3000)
+    corpus = os.path.join(ROOT, "corpus", "c08.txt")   # former failing inputs, replayed first
+    rc, out, err = run_bin("c08", ["tie", n, corpus], seed=r.seed, timeout=3000)
     lines = json_lines(out)
     cases = [l for l in lines if "line" in l]
     meta = [l for l in lines if "rejected" in l]
@@ -401,6 +410,7 @@ def run(r):
         "first_primitive": dict(first_hist), "primitive_uses": dict(op_hist), "unspecified_by_first_primitive": dict(uns_hist),
         "argument_ranks": dict(rank_hist), "argument_types": dict(ty_hist), "arguments_with_empty_axis": empties,
         "distinct_argument_shapes": len(shapes), "rejected_non_integer_results": meta[0]["rejected"] if meta else None,
+        "regression_corpus_cases": meta[0].get("corpus") if meta else None,
         "engine": "vm_compute shards" if quick else "extracted OCaml (ExtrOcamlBasic only) + vm_compute sample",
     }
     okc = [c for i, c in enumerate(cases) if i not in set(unspec)]
